@@ -20,6 +20,7 @@ import NeumannModel.RaftWal.Model
        | snap li lt <t.c,…|->   (install_snapshot: metadata index/term, entries 1..n)
                                 → recs=<rec,…|-> reply=<…> state=<nodestate>
     evf <same events>           the handler while every RaftWal::append fails (stepFail)  → same format
+    evfx <same events>          the same with append_leader_entries repaired (stepFailFixed) → same format
     shrink <rec> …              apply the in-flight records' effect on the obligations    → ok
     ghost                       → acted=.. votes=.. acked=..
     save | load <k> | drop_slots  snapshots of (node, ghost), numbered from 0
@@ -201,6 +202,12 @@ def walStep (st : DState) (line : String) : DState × String :=
   | "evf" :: rest => match parseEvent rest with
       | some e =>
         let o := stepFail st.node e
+        ({ st with node := o.node, ghost := microAllG st.ghost o.micros },
+         s!"recs={showList ((recs o.micros).map showRec)} reply={showReply o.reply} state={showNode o.node}")
+      | none => bad
+  | "evfx" :: rest => match parseEvent rest with
+      | some e =>
+        let o := stepFailFixed st.node e
         ({ st with node := o.node, ghost := microAllG st.ghost o.micros },
          s!"recs={showList ((recs o.micros).map showRec)} reply={showReply o.reply} state={showNode o.node}")
       | none => bad
